@@ -3,10 +3,11 @@
    andb/orb are inlined.  N, Z, positive, nat stay Coq datatypes. *)
 Require Extraction.
 Require Import ExtrOcamlBasic.
-From Redo Require Import Base.Bytes Paths.Norm Paths.Rel DoFiles.Candidates LogRec.Meta.
+From Redo Require Import Base.Bytes Paths.Norm Paths.Rel DoFiles.Candidates LogRec.Meta Build.Model.
 
 Extraction Language OCaml.
 Extraction "model.ml"
   normpath abs_path realdirpath relpath db_key
   possible_do_files arg1 arg2 arg3
-  format parse parse_done_text done_text.
+  format parse parse_done_text done_text
+  init_world run_history read_stamp first_runid stamp_eqb.
